@@ -380,7 +380,10 @@ namespace pika::threads::detail {
 #  endif
 # endif
 
+                                PIKA_VERIF_POINT(1, thrdptr, num_thread);
                                 thrd_stat = (*thrdptr)(context_storage);
+                                PIKA_VERIF_POINT(2, thrdptr, num_thread,
+                                    static_cast<std::uint64_t>(thrd_stat.get_previous()));
 #endif
                             }
 
@@ -405,6 +408,7 @@ namespace pika::threads::detail {
                         // store and retrieve the new state in the thread
                         if (PIKA_UNLIKELY(!thrd_stat.store_state(state)))
                         {
+                            PIKA_VERIF_POINT(3, get_thread_id_data(thrd), num_thread, 0);
                             // some other worker-thread got in between and changed
                             // the state of this thread, we just continue with
                             // the next one
@@ -414,6 +418,7 @@ namespace pika::threads::detail {
                         }
 
                         state_val = state.state();
+                        PIKA_VERIF_POINT(3, get_thread_id_data(thrd), num_thread, 1);
 
                         // any exception thrown from the thread will reset its
                         // state at this point
